@@ -22,6 +22,9 @@ pub struct Store {
     pub hs: HardState,
     pub snap_index: u64,
     pub snap_term: u64,
+    /// the storage forgot the term at snap_index (MemStorage::compact keeps no record of the
+    /// entry before the new first index); only in the "-memq" scenarios
+    pub term_lost: bool,
     /// entries[i].index == snap_index + 1 + i
     pub entries: Vec<Entry>,
     pub app: AppState,
@@ -36,6 +39,7 @@ impl PartialEq for Store {
         self.hs == o.hs
             && self.snap_index == o.snap_index
             && self.snap_term == o.snap_term
+            && self.term_lost == o.term_lost
             && self.entries == o.entries
             && self.app == o.app
             && self.log_unavailable_once.get() == o.log_unavailable_once.get()
@@ -48,6 +52,7 @@ impl Store {
             hs: HardState::default(),
             snap_index: 0,
             snap_term: 0,
+            term_lost: false,
             entries: vec![],
             app: AppState {
                 applied: 0,
@@ -101,6 +106,7 @@ impl Store {
                 let m = s.get_metadata();
                 self.snap_index = m.index;
                 self.snap_term = m.term;
+                self.term_lost = false;
                 self.entries.clear();
                 self.hs.term = std::cmp::max(self.hs.term, m.term);
                 self.hs.commit = m.index;
@@ -156,6 +162,15 @@ impl Store {
                 self.snap_index = idx;
                 self.snap_term = t;
             }
+            WriteOp::CompactKeep(first) => {
+                // MemStorage::compact(first): entries before `first` are discarded and nothing
+                // about first-1 is remembered
+                if *first <= self.snap_index + 1 {
+                    return;
+                }
+                self.apply_op(&WriteOp::Compact(*first - 1));
+                self.term_lost = true;
+            }
         }
     }
 }
@@ -169,6 +184,9 @@ pub enum WriteOp {
     Applied(AppState),
     /// compact the log up to and including this index (index becomes the dummy entry)
     Compact(u64),
+    /// MemStorage-style compaction: this index becomes the first index, the term of the entry
+    /// before it is forgotten
+    CompactKeep(u64),
 }
 
 impl Storage for Store {
@@ -214,6 +232,9 @@ impl Storage for Store {
 
     fn term(&self, idx: u64) -> Result<u64> {
         if idx == self.snap_index {
+            if self.term_lost {
+                return Err(Error::Store(StorageError::Compacted));
+            }
             return Ok(self.snap_term);
         }
         if idx < self.first() {
